@@ -1049,6 +1049,7 @@ pub fn hostile(trace: &[Value]) -> Vec<Value> {
     let mut closev: i64 = -1;
     let mut maxq = [0i64; 7];
     let mut by_done = true;
+    let mut by_vn = false;
     let mut accept_err = json!("none");
     let mut read_after = 0i64;
     for e in trace {
@@ -1058,6 +1059,10 @@ pub fn hostile(trace: &[Value]) -> Vec<Value> {
             "TP" if n == 0 => { tp_s = e.clone(); tp_s["set"] = json!(true); }
             "TP" if n == 1 => { tp_c = e.clone(); tp_c["set"] = json!(true); }
             "Rx" if e["cls"] == "inject" && n == victim_n && e["kind"] == "conn" => applied = true,
+            // the bystander's own datagrams are damaged too in the raw family: a Version Negotiation packet
+            // it provoked (its version field was hit) and that was damaged on the way back (its version
+            // list was hit) ends its attempt - Version Negotiation is not integrity protected
+            "AppEvent" if e["e"]["k"] == "ConnectionLost" && n == 2 && e["e"]["reason"]["k"] == "VersionMismatch" => by_vn = true,
             "AppEvent" if e["e"]["k"] == "ConnectionLost" && n <= 1 => {
                 let r = json!({"k":e["e"]["reason"]["k"],"code":e["e"]["reason"]["code"]});
                 if n == victim_n { if lostv["k"] == "none" { lostv = r; } } else if losta["k"] == "none" { losta = r; }
@@ -1115,7 +1120,7 @@ pub fn hostile(trace: &[Value]) -> Vec<Value> {
             // a warmed-up run has completed one of the peer's bidirectional streams: one more is granted
             "msb":g(tpv,"msb") + if tag["inject"]["warm"] == true { 1 } else { 0 },"msu":g(tpv,"msu"),"dgram":tpv["dgram"].as_i64().unwrap_or(-1).min(1 << 30),
             "lostv":lostv,"losta":losta,"closev":closev,"panic":panic,"stepbound":stepbound,
-            "bystander":by_done,"maxq":maxq.to_vec(),"accept_err":accept_err,"read_after":read_after}),
+            "bystander":by_done || (by_vn && tag["family"] == "hostile-raw"),"maxq":maxq.to_vec(),"accept_err":accept_err,"read_after":read_after}),
     ]
 }
 
